@@ -11,6 +11,7 @@ package main
 // (bounds, divisibility) come from lemma instances.
 
 import (
+	"sync/atomic"
 	"fmt"
 	"math/big"
 	"sort"
@@ -39,7 +40,7 @@ type Term struct {
 	Monos []Mono  // for poly
 	BV    []*Term // forall bound variables
 	Pat   []*Term // forall patterns
-	key   string
+	key   atomic.Pointer[string] // rendered form, computed once (obligations are discharged concurrently and share terms)
 }
 
 var (
@@ -69,10 +70,12 @@ func (t *Term) IsFalse() bool { return t.Op == "false" }
 
 // Key is the canonical SMT-LIB rendering (cached).
 func (t *Term) Key() string {
-	if t.key == "" {
-		t.key = t.render()
+	if k := t.key.Load(); k != nil {
+		return *k
 	}
-	return t.key
+	k := t.render()
+	t.key.Store(&k)
+	return k
 }
 
 func smtInt(v *big.Int) string {
